@@ -13,6 +13,9 @@
                     serialize_pe: it succeeds on every accepted image, its text is well formed and denotes
                     the model's tree, every member is the value of the model accessor it is built from,
                     an `.ok()` member is null exactly when the accessor errs.
+     third round  - the tenth member, `resources` (Model/WrapJsonRes.v): total on any section, bounded by the
+                    budget and the depth limit, equal to the declarative value of the tree / of the listing of C12
+                    on every section fsck accepts; the oracle on the text with no member dropped (block at the end).
    That the real wrapper code and the real Serialize impls ARE these models is established by the
    correspondence check (the implementation's JSON text is parsed by the extracted parser and compared
    with the model's tree), not by theorem. *)
@@ -495,3 +498,131 @@ Theorem C19_leaf_reads_wrap :
   Leaf.L_pe64_headers_Headers_image_range_args = ["optional_header.SizeOfImage : u32"%string; "optional_header.SizeOfHeaders : u32"%string].
 Proof. exact LeafWrap.leaf_reads_wrap. Qed.
 Print Assumptions C19_leaf_reads_wrap.
+
+(* ==== third round: the tenth member, "resources" (src/resources/mod.rs `mod serde`; Model/WrapJsonRes.v, Spec/WrapResSpec.v) ====
+   Qualified names throughout: Model/Resources.v reuses the names rd16 / rd32 / name / root of the header models. *)
+From PV.Model Require WrapJsonRes Resources.
+From PV.Spec Require WrapResSpec ResTree.
+From PV.Proofs Require WrapJsonResProofs WrapJsonResListing.
+
+(* (a) totality: for ANY section - any bytes, counts, offsets, placement - the model of Serialize for Resources returns a
+   value: no error, no panic, no fuel running out.  The fuel of the root walk is JRES_DEPTH = FSCK_MAX_DEPTH - 1 = 31 levels
+   below the root; at fuel 0 a sub-directory is not followed (the arm `_ =>` of WalkEntry), so the recursion ends by
+   construction *)
+Theorem C19_resources_total : forall s : Resources.rsec, exists j, WrapJsonRes.json_resources s = Ok j.
+Proof. exact WrapJsonResProofs.json_resources_total. Qed.
+Print Assumptions C19_resources_total.
+
+(* ... hence serialize_pe with all ten members succeeds on every accepted image, through the wrapper its text is the
+   print of the held format's tree, is well formed and parses back to that tree *)
+Theorem C19_serialize_full_total : forall f file m soi,
+  validate f m = Ok soi -> mem_ok m -> exists j, WrapJsonRes.json_of_image_full f file m = Ok j.
+Proof. exact WrapJsonResProofs.json_of_image_full_total. Qed.
+Print Assumptions C19_serialize_full_total.
+
+Theorem C19_serialize_full_text : forall w file m,
+  wrap_from_bytes m = Ok w -> mem_ok m ->
+  exists j, WrapJsonRes.json_of_image_full (fmt_of w) file m = Ok j /\ WrapJsonRes.wrap_json_full w file m = Ok j /\
+            WrapJsonRes.wrap_json_full_text w file m = Ok (print_json j) /\
+            well_formed (print_json j) = true /\ parse_json (print_json j) = Some j.
+Proof. exact WrapJsonResProofs.serialize_full_text. Qed.
+Print Assumptions C19_serialize_full_text.
+
+(* the ten-member object is the nine-member object of the second round with the member appended: every theorem about
+   json_of_image above is a theorem about the first nine members of json_of_image_full *)
+Theorem C19_serialize_full_split : forall f file m,
+  WrapJsonRes.json_of_image_full f file m =
+  (j <- json_of_image f file m ;; jr <- WrapJsonRes.json_resources_member f file m ;;
+   Ok (WrapJsonResProofs.add_member j WrapJsonRes.k_res_member jr)).
+Proof. exact WrapJsonResProofs.json_of_image_full_split. Qed.
+Print Assumptions C19_serialize_full_split.
+
+(* (b) boundedness, for ANY section: the number of entry objects (objects with a "name" member) is at most the budget
+   length / 8, and arrays are nested at most FSCK_MAX_DEPTH = 32 deep - directories that contain themselves included *)
+Theorem C19_resources_bounded : forall (s : Resources.rsec) j,
+  WrapJsonRes.json_resources s = Ok j ->
+  WrapResSpec.jentries j <= Resources.rs_len s / 8 /\ (WrapResSpec.jdepth j <= Resources.FSCK_DEPTH)%nat.
+Proof. exact WrapJsonResProofs.json_resources_bounded. Qed.
+Print Assumptions C19_resources_bounded.
+
+(* (c) content: a section whose root denotes a tree (Spec/ResTree.v repr, the notion of C12) nested at most 32 directories
+   deep with at most length / 8 entries - exactly the sections fsck accepts, C12_fsck_iff - serializes to the declarative
+   value of that tree: every directory the array of its entries in stored order, names (an id with a predefined type
+   name is that name on the first level and the number below it; UTF-16 names decoded with U+FFFD for unpaired
+   surrogates), data entries { OffsetToData, Size, CodePage }; nothing is cut *)
+Theorem C19_resources_mirror_tree : forall (s : Resources.rsec) kids,
+  ResTree.repr s (ResTree.RDir 0 kids) = true ->
+  (ResTree.height (ResTree.RDir 0 kids) <= Resources.FSCK_DEPTH)%nat ->
+  ResTree.size (ResTree.RDir 0 kids) <= Resources.rs_len s / 8 ->
+  WrapJsonRes.json_resources s = Ok (WrapResSpec.tree_json (Resources.rs_va s) true (ResTree.RDir 0 kids)).
+Proof. exact WrapJsonResProofs.json_resources_repr. Qed.
+Print Assumptions C19_resources_mirror_tree.
+
+Theorem C19_resources_of_fsck : forall s : Resources.rsec,
+  Resources.fsck s = Ok tt ->
+  exists kids, ResTree.repr s (ResTree.RDir 0 kids) = true /\
+    WrapJsonRes.json_resources s = Ok (WrapResSpec.tree_json (Resources.rs_va s) true (ResTree.RDir 0 kids)).
+Proof. exact WrapJsonResProofs.json_resources_of_fsck. Qed.
+Print Assumptions C19_resources_of_fsck.
+
+(* the oracle run on the implementation's text with NO member dropped is sound and complete *)
+Theorem C19_json_text_full_oracle_sound : forall model text,
+  WrapResSpec.json_text_full_ok model text = true ->
+  exists j, model = Ok j /\ parse_json text = Some j /\ well_formed text = true /\ text = print_json j.
+Proof. exact WrapJsonResProofs.json_text_full_ok_sound. Qed.
+Print Assumptions C19_json_text_full_oracle_sound.
+Theorem C19_json_text_full_oracle_complete : forall j, WrapResSpec.json_text_full_ok (Ok j) (print_json j) = true.
+Proof. exact WrapJsonResProofs.json_text_full_ok_complete. Qed.
+Print Assumptions C19_json_text_full_oracle_complete.
+
+(* ... and it subsumes the oracle of the second round (which dropped the member) *)
+Theorem C19_json_text_full_oracle_implies_nine : forall f file m text,
+  WrapResSpec.json_text_full_ok (WrapJsonRes.json_of_image_full f file m) text = true ->
+  json_text_ok (json_of_image f file m) text = true.
+Proof. exact WrapJsonResProofs.json_text_full_ok_implies_nine. Qed.
+Print Assumptions C19_json_text_full_oracle_implies_nine.
+
+(* (c') the serializer mirrors traversal.  For EVERY tree the value read off its depth-first listing (Spec/ResTree.v flatten;
+   listing_json groups it with kids_of / take_sub, the functions the lookups of C12 are specified with) is the value read off
+   the tree; hence on a section that denotes a tree within the limits the member is listing_json of what Resources.walk -
+   the traversal of C12 (C12_walk_repr) - lists with the limits of fsck *)
+Theorem C19_listing_json_flatten : forall (s : Resources.rsec) va o kids fuel lvl,
+  (ResTree.height (ResTree.RDir o kids) <= fuel)%nat ->
+  JArr (WrapResSpec.listing_json fuel va lvl (ResTree.flatten s lvl (ResTree.RDir o kids)))
+  = WrapResSpec.tree_json va (lvl =? 0) (ResTree.RDir o kids).
+Proof. exact WrapJsonResListing.listing_json_flatten. Qed.
+Print Assumptions C19_listing_json_flatten.
+
+Theorem C19_resources_mirror_listing : forall (s : Resources.rsec) kids,
+  ResTree.repr s (ResTree.RDir 0 kids) = true ->
+  (ResTree.height (ResTree.RDir 0 kids) <= Resources.FSCK_DEPTH)%nat ->
+  ResTree.size (ResTree.RDir 0 kids) <= Resources.rs_len s / 8 ->
+  WrapJsonRes.json_resources s =
+  Ok (JArr (WrapResSpec.listing_json Resources.FSCK_DEPTH (Resources.rs_va s) 0
+             (fst (Resources.walk Resources.FSCK_DEPTH s 0 0 (Resources.fsck_budget s))))).
+Proof. exact WrapJsonResListing.json_resources_mirror_listing. Qed.
+Print Assumptions C19_resources_mirror_listing.
+
+(* (d) non-vacuity: a two-level section with a named entry (an unpaired surrogate in its name) and the id 3 on both levels
+   (renamed "#ICON" on the first, the number 3 on the second); the self-containing root of F16 cut by the budget (24
+   bytes: 3 entries) and, in a section of 320 bytes, by the depth limit (32 entries, 32 levels); a misaligned root is
+   null, an empty root is [] *)
+Example C19_resources_nonvacuous :
+  ResTree.repr WrapJsonResProofs.ex_res_sec WrapJsonResProofs.ex_res_tree = true /\ Resources.fsck WrapJsonResProofs.ex_res_sec = Ok tt /\
+  WrapJsonRes.json_resources WrapJsonResProofs.ex_res_sec = Ok (WrapResSpec.tree_json 4096 true WrapJsonResProofs.ex_res_tree) /\
+  WrapJsonResProofs.fmap_print (WrapJsonRes.json_resources WrapJsonResProofs.ex_res_sec) =
+    Some (S_"[{""name"":""A" ++ [239; 191; 189] ++
+          S_""",""data"":{""address"":4192,""size"":4,""code_page"":0}},{""name"":""#ICON"",""directory"":[{""name"":3,""data"":{""address"":4192,""size"":4,""code_page"":1252}}]}]") /\
+  WrapJsonResProofs.fmap_print (WrapJsonRes.json_resources WrapJsonResProofs.ex_res_self) =
+    Some (S_"[{""name"":""#CURSOR"",""directory"":[{""name"":1,""directory"":[{""name"":1,""directory"":[]}]}]}]") /\
+  (match WrapJsonRes.json_resources WrapJsonResProofs.ex_res_deep with Ok j => (WrapResSpec.jentries j, WrapResSpec.jdepth j) | _ => (0, O) end) = (32, 32%nat) /\
+  WrapJsonRes.json_resources (ResourcesProofs.sec_of 4098 4096 [0;0;0;0; 0;0;0;0; 0;0;0;0; 0;0; 0;0]) = Ok JNull /\
+  WrapJsonRes.json_resources (ResourcesProofs.sec_of 4096 4096 [0;0;0;0; 0;0;0;0; 0;0;0;0; 0;0; 0;0]) = Ok (JArr []).
+Proof. exact WrapJsonResProofs.ex_res_nonvacuous. Qed.
+Print Assumptions C19_resources_nonvacuous.
+
+(* OPEN: C19_resources_is_serde : the Serialize impls of src/resources/mod.rs `mod serde` ARE WrapJsonRes.json_resources -
+   correspondence only (the full JSON text, `resources` included, is compared byte for byte on every accepted case) *)
+(* OPEN: C19_resources_cut_listing : on a section that is NOT a tree within the limits (dangling references, a walk cut by the
+   budget or by the depth limit) the member equals a declarative function of the listing Resources.walk produces (which
+   entries survive the cut) - only the model and C19_resources_bounded speak about such sections *)
